@@ -60,6 +60,7 @@ DevNames == {"D_unproven_ds_bogus_validity", "D_child_validity_from_ds_time"}
 Inf == 99
 BogusV == 3       \* max_bogus_validity
 ShortL == 3       \* remaining life of a "Short" signature when served
+NsecTtl == 5      \* TTL of the no-DS proof (NSEC: the SOA minimum, 300 s - just under 3 ticks)
 Min(a, b) == IF a <= b THEN a ELSE b
 Monus(a, b) == IF a >= b THEN a - b ELSE 0
 
@@ -236,7 +237,7 @@ RecvDs(i) ==
        [] m.form = "nods" ->
             Set(i, [r EXCEPT !.pc = "insert", !.build =
                       IF SigOk(m, now)
-                      THEN MkNode(z, "Insecure", {}, now, Min(pt, m.exp - now), Min(P.cx, m.exp),
+                      THEN MkNode(z, "Insecure", {}, now, Min(Min(pt, NsecTtl), m.exp - now), Min(P.cx, m.exp),
                                   P.gen, P.tn)
                       ELSE bogus(BogusV)])
        [] OTHER ->    \* neither DS nor a usable NSEC / NSEC3
